@@ -395,7 +395,195 @@ func checkC03(p *core.Program, r *core.Report) {
 	r.Rule(R4, "every path that enters a terminal state runs the close-once or spawns a goroutine that always runs it (same rule as C04.R4)")
 	fsmTerminalRules(fr, r, "", R4)
 	r.Floor(R4, 4)
+
+	// R7: a timer armed from a waiting time the partner announced must fire before that time is over
+	const R7 = "C03.R7 prolongation-before-partner-timeout"
+	r.Rule(R7, "every handshake-timer duration that derives from the partner's announced waiting time (ConnectionHello.Waiting) is that time reduced by a positive constant: the prolongation request has to leave before the partner's own wait timer expires, else an approval given later than one waiting period finds the partner gone")
+	checkWaitingReduced(p, r, R7)
+	r.Floor(R7, 1)
+
+	// R8: a side whose transport failed learns of it and ends (rules shared with C13.R2 / C13.R4)
+	const R8 = "C03.R8 transport-loss-ends-the-connection"
+	r.Rule(R8, "a failing transport write is reported to the SHIP layer on every path, and the SHIP layer's reaction reaches CloseConnection on every path (else one side stays completed on a dead transport while the peer has ended)")
+	if a := findWS(p, r, R8); a != nil {
+		checkWriteFailureReported(p, r, a, R8, "ws."+a.typ.Obj().Name())
+	}
+	checkShipReaction(p, r, R8)
+	r.Floor(R8, 2)
 	_ = reflect.TypeOf
+}
+
+// checkWaitingReduced (C03.R7).
+func checkWaitingReduced(p *core.Program, r *core.Report, R7 string) {
+	ensureCallSites(p)
+	fWaiting := p.Field("model", "ConnectionHelloType", "Waiting")
+	if fWaiting == nil {
+		r.Unresolved(R7, "model.ConnectionHelloType.Waiting")
+		return
+	}
+	// arming functions: ship functions that start a goroutine waiting on time.After / a timer channel
+	arm := map[*ssa.Function]bool{}
+	for _, fn := range p.FuncsOf("ship") {
+		core.EachInstr(fn, func(in ssa.Instruction) {
+			g, ok := in.(*ssa.Go)
+			if !ok {
+				return
+			}
+			body := core.ClosureArg(g.Call.Value)
+			if body == nil {
+				body = g.Call.StaticCallee()
+			}
+			if body == nil || body.Blocks == nil {
+				return
+			}
+			core.EachInstr(body, func(y ssa.Instruction) {
+				if sel, ok := y.(*ssa.Select); ok {
+					for _, st := range sel.States {
+						if st.Dir == types.RecvOnly && isTimerChan(st.Chan) {
+							arm[fn] = true
+						}
+					}
+				}
+			})
+		})
+	}
+	if len(arm) == 0 {
+		r.Unresolved(R7, "timer arming function of package ship")
+		return
+	}
+	fromWaiting := func(v ssa.Value) bool {
+		found := false
+		seen := map[ssa.Value]bool{}
+		var walk func(v ssa.Value, d int)
+		walk = func(v ssa.Value, d int) {
+			if v == nil || d > 10 || found || seen[v] {
+				return
+			}
+			seen[v] = true
+			if f, _ := core.LoadedField(v); f == fWaiting {
+				found = true
+				return
+			}
+			switch x := v.(type) {
+			case *ssa.UnOp:
+				walk(x.X, d+1)
+			case *ssa.BinOp:
+				walk(x.X, d+1)
+				walk(x.Y, d+1)
+			case *ssa.Convert:
+				walk(x.X, d+1)
+			case *ssa.ChangeType:
+				walk(x.X, d+1)
+			case *ssa.Phi:
+				for _, e := range x.Edges {
+					walk(e, d+1)
+				}
+			case *ssa.FieldAddr:
+				if core.FieldVar(x) == fWaiting {
+					found = true
+				}
+			case *ssa.Parameter:
+				if b := core.Canon(x); b != ssa.Value(x) {
+					walk(b, d+1)
+				} else {
+					// an unbound parameter of a helper: what its callers pass
+					idx := -1
+					for i, q := range x.Parent().Params {
+						if q == x {
+							idx = i
+						}
+					}
+					for _, cs := range gCallSites[x.Parent()] {
+						if c := core.Common(cs); c != nil && idx >= 0 && idx < len(c.Args) {
+							walk(c.Args[idx], d+1)
+						}
+					}
+				}
+			case *ssa.Extract:
+				walk(x.Tuple, d+1)
+			case *ssa.Call:
+				for _, a := range x.Call.Args {
+					walk(a, d+1)
+				}
+			}
+		}
+		walk(v, 0)
+		return found
+	}
+	// reduced: (something) - positive constant, on every incoming phi edge; helpers are followed
+	var reduced func(v ssa.Value, d int) bool
+	// reducedResult: every idx-th return value of the ship-local callee that derives from the waiting time is reduced
+	reducedResult := func(x *ssa.Call, idx int, d int) bool {
+		t := x.Call.StaticCallee()
+		if t == nil || t.Blocks == nil || p.PkgShort(t) != "ship" {
+			return false
+		}
+		undo := core.BindCall(x)
+		defer undo()
+		ok := true
+		core.EachInstr(t, func(in ssa.Instruction) {
+			if ret, isRet := in.(*ssa.Return); isRet && idx < len(ret.Results) {
+				rv := core.ResultOf(ret, idx)
+				if fromWaiting(rv) && !reduced(rv, d+1) {
+					ok = false
+				}
+			}
+		})
+		return ok
+	}
+	reduced = func(v ssa.Value, d int) bool {
+		if d > 6 {
+			return false
+		}
+		switch x := v.(type) {
+		case *ssa.BinOp:
+			if x.Op == token.SUB {
+				if k, ok := intConst(x.Y); ok && k > 0 {
+					return true
+				}
+			}
+			return false
+		case *ssa.Phi:
+			for _, e := range x.Edges {
+				if fromWaiting(e) && !reduced(e, d+1) {
+					return false
+				}
+			}
+			return true
+		case *ssa.Call:
+			return reducedResult(x, 0, d)
+		case *ssa.Extract:
+			if c, ok := x.Tuple.(*ssa.Call); ok {
+				return reducedResult(c, x.Index, d)
+			}
+			return false
+		case *ssa.Convert:
+			return reduced(x.X, d+1)
+		case *ssa.ChangeType:
+			return reduced(x.X, d+1)
+		}
+		return false
+	}
+	for _, fn := range p.FuncsOf("ship") {
+		fn := fn
+		core.EachInstr(fn, func(in ssa.Instruction) {
+			c := core.Common(in)
+			if c == nil || c.StaticCallee() == nil || !arm[c.StaticCallee()] {
+				return
+			}
+			for _, a := range c.Args {
+				if !core.TypeIs(a.Type(), "time", "Duration") || !fromWaiting(a) {
+					continue
+				}
+				key := "timer armed from the partner's waiting time in " + shortFn(p.FnName(fn))
+				if reduced(a, 0) {
+					r.OK(R7, key, p.Pos(in.Pos()), "waiting time minus a positive constant")
+				} else {
+					r.Fail(R7, key, p.Pos(in.Pos()), "the timer is armed with the partner's full waiting time: the prolongation request is sent when the partner's own wait timer has already expired, so a user approval after more than one waiting period finds the connection aborted")
+				}
+			}
+		})
+	}
 }
 
 func checkVersionAgreement(p *core.Program, r *core.Report, R1 string) {
